@@ -26,7 +26,7 @@ def load_known():
 def match_known(known, prop, component, label):
     """Known findings are keyed by role: property + component (harness/scenario) + failing label substring."""
     for k in known.get("known", []):
-        if k["property"] == prop and k["component"] == component and k["label"] in label:
+        if k["property"] == prop and k["component"] in ("*", component) and k["label"] in label:
             return k
     return None
 
